@@ -37,7 +37,7 @@ Init0(H) == /\ store = Empty /\ lastTxid = 1 /\ ver = (1 :> Empty)
             /\ tx = [h \in H |-> NoTx] /\ cur = <<>> /\ wlock = 0 /\ last = NoRes
 
 \* ---------------------------------------------------------------- begin
-BeginCall(h) == /\ tx[h].st \in {"none", "closed"}
+BeginCall(h) == /\ tx[h].st \in {"none", "closed", "calling"}      \* "calling": the previous Begin failed
                 /\ tx' = [tx EXCEPT ![h] = [NoTx EXCEPT !.st = "calling", !.lo = lastTxid]]
                 /\ cur' = [c \in {x \in DOMAIN cur : cur[x].h # h} |-> cur[c]]
                 /\ last' = NoRes /\ UNCHANGED <<store, lastTxid, ver, wlock>>
@@ -89,7 +89,9 @@ DoOp(h, o) == /\ OpEnabled(h, o)
 \* ---------------------------------------------------------------- commit / rollback
 \* Versions that may still be needed: those a reader that is between BeginCall and
 \* BeginRead may legitimately pick.
-Needed(newid) == LET los == {tx[h].lo : h \in {x \in Handles : tx[x].st = "calling"}} \cup {newid}
+\* (the predecessor of a new version is kept until the next publication: a commit whose final sync
+\*  fails may still turn out to be absent)
+Needed(newid) == LET los == {tx[h].lo : h \in {x \in Handles : tx[x].st = "calling"}} \cup {newid - 1}
                      m == CHOOSE x \in los : \A y \in los : x <= y
                  IN {i \in (DOMAIN ver) \cup {newid} : i >= m}
 
@@ -136,7 +138,7 @@ EndRead(h) == /\ tx[h].st = "open" /\ ~tx[h].w
               /\ tx' = [tx EXCEPT ![h].st = "closed"]
               /\ last' = NoRes /\ UNCHANGED <<store, lastTxid, ver, cur, wlock>>
 
-Quiescent == \A h \in Handles : tx[h].st \in {"none", "closed"}
+Quiescent == \A h \in Handles : tx[h].st \in {"none", "closed", "calling"}
 Reopen == /\ Quiescent /\ wlock = 0
           /\ tx' = [h \in Handles |-> NoTx] /\ cur' = <<>>
           /\ ver' = (lastTxid :> store)
